@@ -22,6 +22,8 @@ void battery(World &w, int ri, uint64_t sel, int nq) {
     // query set: union of 1-3 normal objects' cpusets, +- a PU, a foreign bit, empty
     BSet S; int k = 1 + (int)g.below(3); for (int i = 0; i < k; i++) S = S | N[g.below(N.size())]->cs;
     if (g.chance(1, 3) && !S.empty()) S.del((unsigned)S.first()); if (g.chance(1, 8)) S.add(900 + (unsigned)g.below(5)); if (g.chance(1, 10)) S = BSet();
+    // a PU the topology knows about but does not contain (offline / disallowed: in the complete cpuset only)
+    if (g.chance(1, 5)) { BSet off = root->ccs - rootcs; if (!off.inf && !off.empty()) { auto e = off.elems(); S.add(e[g.below(e.size())]); r.count("probe.battery_query_with_unavailable_pu"); } }
     hwloc_bitmap_t b = S.to_hwloc();
     struct Free { hwloc_bitmap_t b; ~Free() { hwloc_bitmap_free(b); } } fr{b};
     { // covering: the deepest object whose cpuset includes the set
